@@ -192,6 +192,21 @@ fn gen_text(t: &mut Tape) -> String {
         match t.weighted(&[4, 3, 3, 5, 1]) {
             0 => {
                 s.push_str(".TEXT\n");
+                if t.chance(1, 25) {
+                    // an oversize block: 65530-65580 word lines really present (the length field of the binary format
+                    // and of the loader is 16 bits wide), starting at x0000 or elsewhere
+                    let n = 65530 + t.pick(50);
+                    let claimed = if t.chance(3, 4) { n } else { n + 1 };
+                    s.push_str(&format!("{:04X}\n{claimed}\n", *t.choose(&[0u16, 0x3000, 0xFFFF])));
+                    let holes = t.chance(1, 2);
+                    for k in 0..n {
+                        if holes && k % 1000 == 999 {
+                            s.push_str("????\n");
+                        } else {
+                            s.push_str(&format!("{:04X}\n", k & 0xFFFF));
+                        }
+                    }
+                }
                 for _ in 0..t.pick(4) {
                     s.push_str(&format!("{}\n", hex4(t)));
                     let n = t.pick(5);
@@ -402,6 +417,11 @@ pub fn check(tape: &[u32], st: &mut Stats) -> Result<(), String> {
         Input::Bin(b) => oracle_binary(b)?,
         Input::Txt(s) => oracle_text(s)?,
     };
+    if let Input::Txt(s) = &input {
+        if s.len() > 300_000 {
+            st.class(if accepted { "text-block-of-65530-65580-lines:accepted" } else { "text-block-of-65530-65580-lines:rejected" });
+        }
+    }
     if accepted {
         st.class(&format!("accepted:{kind}"));
         match &input {
@@ -457,7 +477,7 @@ pub fn run(ctx: &Ctx) -> Outcome {
             }
         }
     }
-    out.essential = ["accepted:structured-binary", "accepted:structured-text", "accepted:mutated-binary", "accepted:mutated-text", "gen:random-bytes", "gen:random-text"].iter().map(|s| s.to_string()).collect();
+    out.essential = ["accepted:structured-binary", "accepted:structured-text", "accepted:mutated-binary", "accepted:mutated-text", "gen:random-bytes", "gen:random-text", "text-block-of-65530-65580-lines:rejected"].iter().map(|s| s.to_string()).collect();
     out
 }
 
